@@ -26,7 +26,10 @@ KeysOf(s) == {Key(s[j].c, s[j].i) : j \in DOMAIN s}
 
 TraceInit == l = 1 /\ InitWith([nc |-> 1, mi |-> 4, mb |-> 4, ev |-> 1], {})
 TNew == /\ IsEvent("New")
-        /\ \E dv \in SUBSET {"C27floor"} : InitWith(Ev.in, dv)'
+        /\ \E dv \in SUBSET AllDefects :
+              LET n == NewState(Ev.in, dv) IN
+              /\ cfg' = n.cfg /\ alive' = n.alive /\ ccfg' = n.ccfg /\ chunks' = n.chunks /\ marked' = {}
+              /\ hist' = <<n.rec>>
         /\ alive' = Ev.out.ok
         /\ (alive' => ccfg' = Ev.out.cc)
         /\ MatchesState
